@@ -277,7 +277,7 @@ Definition wait_fail (t fd ints e : Z) (s : nst) : nst :=
   run_notified (nadd_log (NRes t (-1) e) (set_thr t NFinished s2)).
 
 (* the variant of add_interest the runner executes = the code in the tree *)
-Definition NG_ROLLBACK_GUARDED : bool := false.
+Definition NG_ROLLBACK_GUARDED : bool := true.
 
 (* epoll-ng.cpp 291-302: wait_for_fd up to the sleep; tmo < 0 means "never" *)
 Definition wait_for_fd_begin (g : bool) (t fd ints tmo : Z) (s : nst) : nst :=
